@@ -1,6 +1,7 @@
-From GD Require Import C08.Token C08.TokSpec C08.Standards Gen.Gates C08.GatesDefs C08.Names.
+From GD Require Import C08.Token C08.TokSpec C08.Standards Gen.Gates C08.GatesDefs C08.Names C08.LitSpec C08.Literal.
 Require Import ExtrOcamlBasic.
 Extraction Language OCaml.
 Extraction "model.ml" tokenise strtok_all tok_impl tok_line tok_spec MAX_IN_COLS
   all_gnames code_gate spec_gate code_applies spec_applies
-  validate_field spec_name_ok.
+  validate_field spec_name_ok
+  toktonum set_scalar spec_is_number g_float g_int.
